@@ -375,26 +375,114 @@ Proof.
   apply map_ext. intros k. unfold expo. rewrite E1, E2, E3. reflexivity.
 Qed.
 
-(* ---- successive outages on one StreamManager: each restarts at attempt 0 ---- *)
-Lemma dur_seq_nojitter_params rs b0 b :
-  params (set_default b) = params (set_default b0) ->
-  no_jitter b0 = true -> bounds (set_default b0) -> attempt b = 0 ->
-  snd (dur_seq b rs) =
-    map (fun k => Dur (expo (set_default b0) (Z.of_nat k) * millisecond)) (seq 0 (length rs))
-  /\ params (set_default (fst (dur_seq b rs))) = params (set_default b0).
+(* ---- every call, with or without jitter: within [0, the no-jitter delay] ---- *)
+Lemma dfa_within b n r :
+  positive_params (set_default b) -> 0 <= n ->
+  exists ns, snd (dur_for_attempt b n r) = Dur ns /\
+             0 <= ns <= sat (set_default b) n * millisecond /\
+             (no_jitter b = false -> ns < sat (set_default b) n * millisecond) /\
+             0 <= ns <= cap (set_default b) * millisecond /\ ns < 2 ^ 63.
 Proof.
-  intros Hpar Hj Hb Ha.
-  destruct (params_inv _ _ Hpar) as (E0 & E1 & E2 & E3).
-  assert (no_jitter b = true) as Hj1.
-  { change (no_jitter b) with (no_jitter (set_default b)). rewrite E0. exact Hj. }
-  assert (bounds (set_default b)) as Hb1.
-  { unfold bounds, positive_params in *. rewrite E1, E2, E3. exact Hb. }
-  split.
-  - rewrite (dur_seq_nojitter rs b Hj1 Hb1 Ha).
-    apply map_ext. intros k. unfold expo. rewrite E1, E2, E3. reflexivity.
-  - destruct (dur_seq_spec_gen rs b b 0%nat eq_refl (bounds_positive _ Hb1) ltac:(lia)) as (_ & H & _).
-    rewrite H. exact Hpar.
+  intros Hp Hn. destruct (dfa_bounded b n r Hp Hn) as (ns & Hd & Hc & H63).
+  exists ns. split; [exact Hd|].
+  pose proof (sat_range _ n Hp Hn) as (Hr & _).
+  destruct (no_jitter b) eqn:Hj.
+  - rewrite (dfa_sat_nojitter b n r Hj Hp Hn) in Hd. injection Hd as <-.
+    repeat split; try lia; try discriminate; unfold millisecond; lia.
+  - destruct (dfa_jitter b n r Hj Hp Hn) as (ns' & Hd' & Hr').
+    rewrite Hd in Hd'. injection Hd' as <-. repeat split; try lia.
 Qed.
+
+(* what the jitter draw is: the oracle value reduced modulo EXACTLY the no-jitter delay *)
+Lemma dfa_jitter_draw b n r :
+  no_jitter b = false -> positive_params (set_default b) -> 0 <= n ->
+  snd (dur_for_attempt b n r) = Dur (r mod (sat (set_default b) n * millisecond)) /\
+  0 < sat (set_default b) n * millisecond.
+Proof.
+  intros Hj Hp Hn. rewrite (dfa_out b n r Hp Hn), Hj. split; [reflexivity|].
+  pose proof (sat_range _ n Hp Hn) as (Hr & _). unfold millisecond. lia.
+Qed.
+
+Lemma Forall2_seq_combine {A} (P : nat -> A -> Prop) (f : nat * Z -> A) : forall (rs : list Z) j,
+  (forall k r, P k (f (k, r))) ->
+  Forall2 P (seq j (length rs)) (map f (combine (seq j (length rs)) rs)).
+Proof.
+  induction rs as [|r rs IH]; intros j H; cbn [length seq combine map]; constructor.
+  - apply H.
+  - apply IH. exact H.
+Qed.
+
+Lemma Forall2_weaken {A B} (P Q : A -> B -> Prop) (l : list A) (l' : list B) :
+  (forall x y, P x y -> Q x y) -> Forall2 P l l' -> Forall2 Q l l'.
+Proof. intros H F. induction F; constructor; auto. Qed.
+
+Lemma Forall2_map_same {A B} (P : A -> B -> Prop) (g : A -> B) (l : list A) :
+  (forall x, P x (g x)) -> Forall2 P l (map g l).
+Proof. intros H. induction l; cbn [map]; constructor; auto. Qed.
+
+(* the k-th wait of the stateful sequence, with or without jitter *)
+Lemma dur_seq_within rs b :
+  positive_params (set_default b) -> 0 <= attempt b ->
+  Forall2 (fun k o => exists ns, o = Dur ns /\
+             0 <= ns <= sat (set_default b) (attempt b + Z.of_nat k) * millisecond /\
+             (no_jitter b = false -> ns < sat (set_default b) (attempt b + Z.of_nat k) * millisecond) /\
+             0 <= ns <= cap (set_default b) * millisecond /\ ns < 2 ^ 63)
+          (seq 0 (length rs)) (snd (dur_seq b rs)).
+Proof.
+  intros Hp Ha. rewrite (dur_seq_spec rs b Hp Ha).
+  apply (Forall2_seq_combine _ (fun kr => snd (dur_for_attempt b (attempt b + Z.of_nat (fst kr)) (snd kr)))).
+  intros k r. cbn [fst snd]. apply dfa_within; [exact Hp | lia].
+Qed.
+
+Lemma dur_seq_bounded rs b :
+  positive_params (set_default b) -> 0 <= attempt b ->
+  Forall (fun o => exists ns, o = Dur ns /\ 0 <= ns <= cap (set_default b) * millisecond /\ ns < 2 ^ 63)
+         (snd (dur_seq b rs)).
+Proof.
+  intros Hp Ha. rewrite (dur_seq_spec rs b Hp Ha). apply Forall_forall. intros o Hin.
+  apply in_map_iff in Hin. destruct Hin as ([k r] & <- & _). cbn [fst snd].
+  apply dfa_bounded; [exact Hp | lia].
+Qed.
+
+(* ---- successive outages on one StreamManager: each restarts at attempt 0 ---- *)
+Lemma outages_r_spec : forall rss b0 b,
+  params (set_default b) = params (set_default b0) ->
+  positive_params (set_default b0) ->
+  outages_r b rss =
+  map (fun rs => map (fun kr => snd (dur_for_attempt b0 (Z.of_nat (fst kr)) (snd kr)))
+                     (combine (seq 0 (length rs)) rs)) rss.
+Proof.
+  induction rss as [|rs rss IH]; intros b0 b Hpar Hp; [reflexivity|].
+  cbn [outages_r map].
+  assert (params (set_default (reset b)) = params (set_default b0)) as Hpar'.
+  { rewrite set_default_reset. unfold reset, params in *. cbn [no_jitter base factor cap]. exact Hpar. }
+  destruct (dur_seq_spec_gen rs b0 (reset b) 0%nat Hpar' Hp ltac:(cbn; lia)) as (H1 & H2 & _).
+  destruct (dur_seq (reset b) rs) as [b1 os]. cbn [fst snd] in *.
+  rewrite H1. f_equal.
+  - apply map_ext. intros [k r]. cbn [fst snd reset attempt]. f_equal. f_equal. lia.
+  - apply IH; assumption.
+Qed.
+
+Lemma outages_r_within b rss :
+  positive_params (set_default b) ->
+  Forall2 (fun rs os =>
+     Forall2 (fun k o => exists ns, o = Dur ns /\
+                0 <= ns <= sat (set_default b) (Z.of_nat k) * millisecond /\
+                (no_jitter b = false -> ns < sat (set_default b) (Z.of_nat k) * millisecond) /\
+                0 <= ns <= cap (set_default b) * millisecond /\ ns < 2 ^ 63)
+             (seq 0 (length rs)) os)
+    rss (outages_r b rss).
+Proof.
+  intros Hp. rewrite (outages_r_spec rss b b eq_refl Hp).
+  apply Forall2_map_same. intros rs.
+  apply (Forall2_seq_combine _ (fun kr => snd (dur_for_attempt b (Z.of_nat (fst kr)) (snd kr)))).
+  intros k r. cbn [fst snd]. apply dfa_within; [exact Hp | lia].
+Qed.
+
+Lemma map_zeros_combine {A} (f : nat -> A) m :
+  map (fun kr : nat * Z => f (fst kr)) (combine (seq 0 (length (zeros m))) (zeros m))
+  = map f (seq 0 (Z.to_nat m)).
+Proof. rewrite map_combine_seq_const. unfold zeros. rewrite repeat_length. reflexivity. Qed.
 
 Lemma outages_spec : forall ms b0 b,
   params (set_default b) = params (set_default b0) ->
@@ -403,14 +491,38 @@ Lemma outages_spec : forall ms b0 b,
   map (fun m => map (fun k => Dur (expo (set_default b0) (Z.of_nat k) * millisecond))
                     (seq 0 (Z.to_nat m))) ms.
 Proof.
-  induction ms as [|m ms IH]; intros b0 b Hpar Hj Hb; [reflexivity|].
-  cbn [outages map].
-  assert (params (set_default (reset b)) = params (set_default b0)) as Hpar'.
-  { rewrite set_default_reset. unfold reset, params in *. cbn [no_jitter base factor cap]. exact Hpar. }
-  destruct (dur_seq_nojitter_params (zeros m) b0 (reset b) Hpar' Hj Hb eq_refl) as (H1 & H2).
-  destruct (dur_seq (reset b) (zeros m)) as [b1 os]. cbn [fst snd] in *.
-  rewrite H1. unfold zeros at 1. rewrite repeat_length. f_equal.
-  apply IH; assumption.
+  intros ms b0 b Hpar Hj Hb. unfold outages.
+  rewrite (outages_r_spec _ b0 b Hpar (bounds_positive _ Hb)), map_map.
+  apply map_ext. intros m.
+  rewrite <- (map_zeros_combine (fun k => Dur (expo (set_default b0) (Z.of_nat k) * millisecond))).
+  apply map_ext. intros [k r]. cbn [fst snd].
+  apply dfa_nojitter; [exact Hj | exact Hb | lia].
+Qed.
+
+(* ---- float64: what the integer model needs of the float computation ---- *)
+(* x' is an admissible float64 image of the real value x: exact below 2^53, and at least
+   2^52 otherwise (whatever the rounding; +Inf is any x' that large) *)
+Definition float_image (x x' : Z) : Prop :=
+  (x < 2 ^ 53 -> x' = x) /\ (2 ^ 53 <= x -> 2 ^ 52 <= x').
+
+Lemma float_robust b n c' p' :
+  positive_params b -> 0 <= n ->
+  float_image (cap b) c' -> float_image (base b * factor b ^ n) p' ->
+  Z.min max_ms (Z.min c' p') = Z.min max_ms (expo b n).
+Proof.
+  intros Hp Hn [Hc1 Hc2] [Hp1 Hp2]. unfold expo, max_ms.
+  change (2 ^ 53) with 9007199254740992 in *. change (2 ^ 52) with 4503599627370496 in *.
+  destruct (Z_lt_le_dec (cap b) 9007199254740992) as [C|C];
+  destruct (Z_lt_le_dec (base b * factor b ^ n) 9007199254740992) as [P|P];
+    try (rewrite (Hc1 C)); try (rewrite (Hp1 P));
+    try (specialize (Hc2 C)); try (specialize (Hp2 P)); lia.
+Qed.
+
+Lemma float_exact_region b n :
+  positive_params b -> 0 <= n -> 0 < Z.min max_ms (expo b n) < 2 ^ 53.
+Proof.
+  intros Hp Hn. pose proof (expo_range b n Hp Hn). unfold max_ms.
+  change (2 ^ 53) with 9007199254740992. lia.
 Qed.
 
 (* ---- defaults: an unset value gets the code's constants, is inside the hypotheses of
@@ -449,3 +561,25 @@ Qed.
 Lemma huge_cap_saturates :
   snd (dur_for_attempt (fresh true 3 7 (2 ^ 62)) 15 0) = Dur (max_ms * millisecond).
 Proof. vm_compute. reflexivity. Qed.
+
+(* ---- the StreamManager's own value: NoJitter false, everything else unset ---- *)
+Lemma stream_manager_waits rss :
+  Forall2 (fun rs os =>
+     Forall2 (fun k o => exists ns, o = Dur ns /\
+                0 <= ns < Z.min default_cap (default_base * default_factor ^ Z.of_nat k) * millisecond /\
+                ns <= three_minutes)
+             (seq 0 (length rs)) os)
+    rss (outages_r stream_manager_backoff rss).
+Proof.
+  pose proof (bounds_all_zero false 0) as Hb. fold stream_manager_backoff in Hb.
+  pose proof (outages_r_within stream_manager_backoff rss (bounds_positive _ Hb)) as H.
+  eapply Forall2_weaken; [|exact H]. intros rs os H1.
+  eapply Forall2_weaken; [|exact H1]. intros k o (ns & Ho & _ & Hlt & Hc & _).
+  exists ns. split; [exact Ho|].
+  rewrite (sat_bounds _ (Z.of_nat k) Hb ltac:(lia)) in Hlt.
+  specialize (Hlt eq_refl).
+  unfold stream_manager_backoff in *. rewrite set_default_all_zero in *.
+  unfold expo in Hlt. cbn [cap base factor] in *.
+  destruct defaults_ok as (_ & _ & _ & H3). unfold millisecond in *. lia.
+Qed.
+
